@@ -2,8 +2,11 @@ package main
 
 import (
 	"bytes"
+	"errors"
 	"fmt"
+	"io"
 	"net"
+	"syscall"
 	"runtime"
 	"strings"
 	"sync"
@@ -498,6 +501,128 @@ func (e *env) dialDone(c Case, sc *vlib.ScriptConn, ticket bool) {
 	if got := strings.Join(trace, ","); want != got {
 		e.r.Violate("model-impl-disagree-dial-trace", "correspondence", fmt.Sprintf("%s handshake: conn operations %s, model %s", kind, got, want), c)
 	}
+}
+
+// ---------------------------------------------------------------- end of stream: last bytes and the error in ONE read
+
+// modelReadFixed selects the Read model that corresponds to the tree: "1" = the error of the
+// underlying conn is reported once the decoded bytes are drained (repaired), "0" = the code before.
+const modelReadFixed = "1"
+
+var eosErrs = []struct {
+	name  string
+	class int
+	err   error
+}{
+	{"eof", 1, io.EOF},
+	{"reset", 2, &net.OpError{Op: "read", Net: "tcp", Err: syscall.ECONNRESET}},
+	{"timeout", 3, vlib.TimeoutError{}},
+}
+
+func (e *env) eosCases() {
+	n := e.r.Scale(60, 800)
+	for i := 0; i < n; i++ {
+		e.eosCase(Case{Kind: "eos", Seed: e.seed, Sub: uint64(i)})
+	}
+}
+
+// eosCase: after handshake and some data the server's last packets arrive in the SAME underlying
+// read as the error that ends the connection (io.EOF, a reset, a timeout), and the application
+// reads with a small or a large buffer, stopping at the first error like io.ReadAll / io.Copy.
+// S (nothing lost): every payload byte the reference server wrote is delivered before the error
+// surfaces, and the error is the conn's. C: the Read model.
+func (e *env) eosCase(c Case) {
+	rng := vlib.NewRng(e.seed*3571 + c.Sub*11 + 5)
+	id := "eos"
+	e.call("sess.new %s %s", id, vlib.Hex(e.dhSeed))
+	bufSize := vlib.Pick(rng, []int{1, 7, 512, 512, 4096, 70000})
+	ee := eosErrs[rng.Intn(len(eosErrs))]
+	var pk [][]byte
+	var all []byte
+	npk := rng.Range(1, 5)
+	for i := 0; i < npk; i++ {
+		p := spkt{flagData, rng.Bytes(vlib.Pick(rng, []int{1, 30, 200, 600, 1000})), rng.Intn(20)}
+		if rng.Intn(6) == 0 {
+			p = spkt{flagSeed, rng.Bytes(32), 0}
+		}
+		pk = append(pk, e.srvSend(id, p))
+		if p.flag == flagData {
+			all = append(all, p.data...)
+		}
+	}
+	// the last read carries the tail of the stream (at most one segment) and the error
+	var stream []byte
+	for _, w := range pk {
+		stream = append(stream, w...)
+	}
+	tail := rng.Range(1, min(len(stream), mss))
+	if rng.Intn(3) == 0 {
+		tail = min(len(stream), mss)
+	}
+	head := stream[:len(stream)-tail]
+	var sizes []int
+	if len(head) > 0 && rng.Intn(2) == 0 {
+		sizes = []int{rng.Range(1, len(head))}
+	}
+	chunks := cutReads(chunkAt(head, sizes), mss)
+	s, _, _, err := e.connect(c, e.cf, "10.7.0.1:443", 0)
+	if err != nil {
+		e.r.Violate("handshake-fails", "impl-oracle", "plain UniformDH handshake failed: "+err.Error(), c)
+		return
+	}
+	defer s.close()
+	for _, ch := range chunks {
+		s.sc.Feed(ch)
+	}
+	s.sc.FeedWithErr(stream[len(stream)-tail:], ee.err)
+	var got []byte
+	var rerr error
+	var pan interface{}
+	for rerr == nil && pan == nil {
+		var g []byte
+		var blocked bool
+		g, rerr, blocked, pan = s.read(1, bufSize)
+		got = append(got, g...)
+		if blocked {
+			break
+		}
+	}
+	c.Target = fmt.Sprintf("%s/buf%d", ee.name, bufSize)
+	e.r.Case(fmt.Sprintf("eos/%d/%s/%d/%d/%d", c.Sub, ee.name, bufSize, len(stream), tail), true)
+	e.r.Count("kind", "eos")
+	e.r.Count("eos_error", ee.name)
+	e.r.Count("eos_caller_buffer", fmt.Sprint(bufSize))
+	what := fmt.Sprintf("%d packets (%d payload bytes); the last %d wire bytes arrive in the same read as %s; the application reads with a %d-byte buffer until the first error", npk, len(all), tail, ee.name, bufSize)
+	switch {
+	case pan != nil:
+		e.r.Violate("reader-panic", "impl-oracle", what+fmt.Sprintf(": Read panicked: %v", pan), c)
+		return
+	case !bytes.HasPrefix(all, got):
+		e.r.Violate("altered-data-delivered", "impl-oracle", what+fmt.Sprintf(": %d bytes delivered that are not a prefix of what was sent", len(got)), c)
+		return
+	case len(got) < len(all):
+		sig := "stream-tail-lost-at-read-error"
+		if len(all)-len(got) > 0 && bufSize < len(all) && len(got) > 0 {
+			sig = "decoded-bytes-dropped-by-error-with-small-buffer"
+		}
+		e.r.Violate(sig, "impl-oracle", what+fmt.Sprintf(": Read reported %v after %d of the %d payload bytes; the other %d are lost", rerr, len(got), len(all), len(all)-len(got)), c)
+		return
+	case rerr == nil || !(rerr == ee.err || errors.Is(rerr, ee.err)):
+		e.r.Violate("read-error-not-reported", "impl-oracle", what+fmt.Sprintf(": the reader ended with %v instead of the conn's %v", rerr, ee.err), c)
+		return
+	}
+	rep := e.call("cli.readall %s %s %d %d %s", modelReadFixed, vlib.Hex(e.dhSeed), bufSize, ee.class, hexList(append(append([][]byte(nil), chunks...), stream[len(stream)-tail:])))
+	e.r.Validated(1)
+	if rep[0] != "ok" || !bytes.Equal(vlib.UnHex(rep[1]), got) || rep[2] != fmt.Sprintf("net:%d", ee.class) {
+		e.r.Violate("model-impl-disagree-read-error", "correspondence", what+fmt.Sprintf(": implementation delivered %d bytes then %v; model %d bytes then %s", len(got), rerr, len(vlib.UnHex(rep[1])), rep[2]), c)
+	}
+}
+
+func min(a, b int) int {
+	if a < b {
+		return a
+	}
+	return b
 }
 
 // ---------------------------------------------------------------- reseeding of the padding sampler under concurrency
